@@ -1,6 +1,7 @@
 import FrappyProofs.Lemmas.StateMachineInv
 import FrappyProofs.Lemmas.StateMachineBusy
 import FrappyProofs.Lemmas.StateMachineFollow
+import FrappyProofs.Lemmas.StatusCache
 import FrappyModel.Spec.C14
 import FrappyModel.Generated.C14
 /-
@@ -142,7 +143,19 @@ theorem busy_until_finished_strict (cfg : Cfg) (P : Prog) (idle : Status) (ops :
   ⟨strict_of_busy hr idle _ hp (busy_until_finished cfg P idle ops hs hr.busy).1,
    (busy_until_finished cfg P idle ops hs hr.busy).2⟩
 
+/-- **The status a module derives for a state function does not depend on the history of the module instance**: whatever
+sequence of `get_status` lookups (any state functions, any default codes — those of `start_machine`, `stop_machine`, the
+transition hook, in any engagement) went through the `statusMap` cache before, a lookup returns what the lookup without
+cache returns: the attached status, else the default made up from *its own* default code.  (This is what lets the
+machine model use the pure `getStatus` / `statusOf`.) -/
+theorem status_independent_of_history (r : Rules) (before : List (Sid × Option Nat)) (s : Sid) (d : Option Nat) :
+    (getStatusCached r (lookups r [] before).2 s d).1 = getStatusOpt r s d ∧
+    (lookups r [] before).1 = before.map (fun q => getStatusOpt r q.1 q.2) :=
+  ⟨(getStatusCached_coherent (lookups_coherent before (coherent_nil r)).2 s d).1,
+   (lookups_coherent before (coherent_nil r)).1⟩
+
 /-! ### non-vacuity / concrete scenarios -/
+
 
 def rules0 : Rules :=
   { statusOf := fun s => if s = 1 then some (340, "state 1") else none,
@@ -159,6 +172,19 @@ theorem busyRules0 : BusyRules rules0 := by
   split at h
   · cases h; decide
   · cases h
+
+/-- the model's busy predicate is the one the specification names, for every status (so the monitor of the recorded
+`Drivable.isBusy` table accepts exactly the tables that agree with the predicate the busy clause is proved for) -/
+theorem busy_predicate_spec (r : Rules) (table : List (Nat × Bool)) :
+    busyPredicateBad r table = [] ↔ ∀ p, p ∈ table → p.2 = isBusy r (p.1, "") := by
+  unfold busyPredicateBad isBusy
+  rw [List.map_eq_nil_iff, List.filter_eq_nil_iff]
+  constructor
+  · intro h p hp; simpa using h p hp
+  · intro h p hp; simpa using h p hp
+
+example : busyPredicateBad rules0 [(299, false), (300, true), (399, true), (400, false)] = [] ∧
+    busyPredicateBad rules0 [(300, false), (400, true)] = [300, 400] := by decide
 
 /-- a program that retries once and then chains states for ever, with a cleanup that returns a state: the second
 cycle hits the loop limit twice -/
@@ -294,6 +320,13 @@ the status code that state 0 happened to have in the first engagement -/
 example : judge (100, "") 2 true rules1 (history cfg1 waitProg (100, "") waitOps) = [] ∧
     (judge (100, "") 2 true rules1 ((history cfg1 waitProg (100, "") waitOps).set 45 (.status (200, "st 0")))).map
       (fun v => (v.1, v.2.name)) = [(45, "busy_until_finished")] := by decide +kernel
+
+/-- the cache at work: state 0 (nothing attached) is first asked for with the code of a status that is not busy (as
+`stop_machine` does while the module shows `WARN`), then with `BUSY`, then without default; state 4 twice — the second
+and third lookup of state 0 and the second of state 4 are answered from the cache, and still each gets its own default -/
+example : lookups rules1 [] [(0, some 200), (0, some 300), (0, none), (4, some 300), (4, none)] =
+    ([some (200, "st 0"), some (300, "st 0"), none, some (200, "waiting"), some (200, "waiting")],
+     [(4, some (200, "waiting")), (0, none)]) := by decide +kernel
 
 /-! ### `start_machine` preempted by a cycle: the busy clause fails -/
 
